@@ -347,7 +347,7 @@ func c06VmCase(cs *c06Case, impl []int) string {
 }
 
 func runC06(c *core.Ctx) {
-	c.Res.Rule = "column indexes enumerated exhaustively over a small value domain (every null-page placement, every bounds combination, ascending claimed only when true of the non-null pages, and unordered) for INT64, byte arrays, FLOAT and DOUBLE (the domain value 0 is a floating point zero whose sign is chosen independently for page minima, page maxima and probes; its neighbours are denormals, the ends are the largest finite numbers and the infinities) plus random larger indexes, each probed with every domain value through Find with CompareNullsLast and CompareNullsFirst (and Search); plus the column indexes of files produced by the writer (one column of every physical/logical kind with its own indexer: BOOLEAN, INT32, INT64, UINT_32, UINT_64, FLOAT, DOUBLE with both zeros / denormals / infinities / NaN runs, INT96, strings with 0xFF prefixes, FIXED_LEN_BYTE_ARRAY, UUID with values that tie in their high half, DECIMAL on BYTE_ARRAY (shortest and sign-extended encodings of both signs) and on FIXED_LEN_BYTE_ARRAY; required and optional with null runs; several row groups cut by MaxRowsPerRowGroup and by Flush, the column index of every one of them read from the finished file; writers reused through Writer.Reset), searched for every value present in a page; files whose pages have the sizes of real files (for every fixed-width numeric kind and UUID: pages of the default page size and pages of 1 MiB of values, where the writer takes the page bounds from other routines; page lengths 1..64 above a multiple of 64; the only smallest and the only largest value of a page at random positions of its first 64, its last 64 or its other values; disjoint page bands that ascend, descend or alternate; NaN inside FLOAT / DOUBLE pages), every distinct value of every page searched for; plus the ColumnIndex implementations Find is handed besides the index of one column chunk: the column index of a column chunk of parquet.MultiRowGroup and of the row groups MergeRowGroups builds on it (pages of the chunks concatenated, IsAscending computed from the chunks' flags and the bounds at every chunk boundary): exhaustively over 2 chunks of <= 2 pages and 3 chunks of <= 1 page (bounds in {0..2}, null pages, chunks without pages, every order an index may truthfully claim: ascending / descending / unordered), random row groups of 1..6 chunks that follow, overlap, reach into the last page of, or precede one another, with null-only chunks, put together flat, nested, through MergeRowGroups and nested in it; the flag and Find's answers are compared with the model (multi_ascending / multi_find) and the predicate is evaluated on the pages the index reports; and the row groups of the written files (data sorted per row group with row groups that follow / overlap / run ahead at their end / precede one another) seen through MultiRowGroup in file order, reversed, rotated, nested and through MergeRowGroups with and without a sorting column, every value of every page searched for. A case is one (index, comparator, flag) with all probes, one multi row group with all probes, or one column chunk of a file or of a view of it; non-trivial = at least 2 pages (2 chunks for a multi row group); distinct by the JSON of the case."
+	c.Res.Rule = "column indexes enumerated exhaustively over a small value domain (every null-page placement, every bounds combination, ascending claimed only when true of the non-null pages, and unordered) for INT64, byte arrays, FLOAT and DOUBLE (the domain value 0 is a floating point zero whose sign is chosen independently for page minima, page maxima and probes; its neighbours are denormals, the ends are the largest finite numbers and the infinities) plus random larger indexes, each probed with every domain value through Find with CompareNullsLast and CompareNullsFirst (and Search); plus the column indexes of files produced by the writer (one column of every physical/logical kind with its own indexer: BOOLEAN, INT32, INT64, UINT_32, UINT_64, FLOAT, DOUBLE with both zeros / denormals / infinities / NaN runs, INT96, strings with 0xFF prefixes, FIXED_LEN_BYTE_ARRAY, UUID with values that tie in their high half, DECIMAL on BYTE_ARRAY (shortest and sign-extended encodings of both signs) and on FIXED_LEN_BYTE_ARRAY; required and optional with null runs; several row groups cut by MaxRowsPerRowGroup and by Flush, the column index of every one of them read from the finished file; writers reused through Writer.Reset), searched for every value present in a page; files whose pages have the sizes of real files (for every fixed-width numeric kind and UUID: pages of the default page size and pages of 1 MiB of values, where the writer takes the page bounds from other routines; page lengths 1..64 above a multiple of 64; the only smallest and the only largest value of a page at random positions of its first 64, its last 64 or its other values; disjoint page bands that ascend, descend or alternate; NaN inside FLOAT / DOUBLE pages; and for every fixed-width kind, INT96, FIXED_LEN_BYTE_ARRAY and DECIMAL on FIXED_LEN_BYTE_ARRAY included, pages of 65..192 values in which every position in turn holds the only smallest value of one page and the only largest of another: the generic page code takes values in batches of 64), every distinct value of every page searched for; single-row-group files whose first and last page are filled by one value (equal first and last bounds, anything between); every written file once more with the column index of every chunk re-encoded the way other writers encode it (thrift compact protocol: list<bool> element type 1 or 2, false elements 0x00 or 0x02, short or long field headers per field, null_counts and the level histograms present or absent, an unknown trailing field of type bool / i32 / binary / list<bool> / struct), appended to the file behind a footer that points at it, read through OpenFile (whole page index) or SkipPageIndex (per chunk), every value present in a page searched for and the index compared with what it read as in parquet-go's own encoding; plus the ColumnIndex implementations Find is handed besides the index of one column chunk: the column index of a column chunk of parquet.MultiRowGroup and of the row groups MergeRowGroups builds on it (pages of the chunks concatenated, IsAscending computed from the chunks' flags and the bounds at every chunk boundary): exhaustively over 2 chunks of <= 2 pages and 3 chunks of <= 1 page (bounds in {0..2}, null pages, chunks without pages, every order an index may truthfully claim: ascending / descending / unordered), random row groups of 1..6 chunks that follow, overlap, reach into the last page of, or precede one another, with null-only chunks, put together flat, nested, through MergeRowGroups and nested in it; the flag and Find's answers are compared with the model (multi_ascending / multi_find) and the predicate is evaluated on the pages the index reports; and the row groups of the written files (data sorted per row group with row groups that follow / overlap / run ahead at their end / precede one another) seen through MultiRowGroup in file order, reversed, rotated, nested and through MergeRowGroups with and without a sorting column, every value of every page searched for. A case is one (index, comparator, flag) with all probes, one multi row group with all probes, or one column chunk of a file or of a view of it; non-trivial = at least 2 pages (2 chunks for a multi row group); distinct by the JSON of the case."
 	var vm []string
 	addVm := func(cs *c06Case) {
 		if cs.Kind != "int64" || len(vm) >= 300 {
@@ -973,8 +973,11 @@ func c06ChunkSearch(c *core.Ctx, fc any, cc parquet.ColumnChunk, ix parquet.Colu
 }
 
 func c06FileShrink(c *core.Ctx, fc *c06File) *c06File {
+	return c06FileShrinkWith(c, fc, func(t *c06File) bool { return c.Probe(func() { c06FileCheck(c, t, false) }) })
+}
+
+func c06FileShrinkWith(c *core.Ctx, fc *c06File, fails func(t *c06File) bool) *c06File {
 	cur := *fc
-	fails := func(t *c06File) bool { return c.Probe(func() { c06FileCheck(c, t, false) }) }
 	budget := 900
 	for progress := true; progress && budget > 0; {
 		progress = false
@@ -1121,7 +1124,24 @@ func c06Files(c *core.Ctx) {
 				}
 			}
 		}
+		// a chunk that returns to where it began: one value (a default, a sentinel)
+		// fills the first and the last page of the column chunk, whatever lies between
+		// (the first and the last bound of the index are equal, the others are not)
+		if fc.MaxRows == 0 && fc.Flush == 0 && c.Rng.Intn(2) == 0 {
+			s := col.enc(int64(c.Rng.Intn(100))-50, c.Rng.Uint64())
+			if run := 2*fc.PageBuf/len(s) + 2*fc.Batch + 2; run <= 200 {
+				ends := make([]string, run)
+				for i := range ends {
+					ends[i] = hex.EncodeToString(s)
+				}
+				fc.Vals = append(append(append([]string(nil), ends...), fc.Vals...), ends...)
+			}
+		}
 		if !c06FileRun(c, fc) {
+			continue
+		}
+		// the same file with its column indexes in the encoding of another writer
+		if !c06ForeignRun(c, &c06Foreign{c06File: *fc, Dialect: c06DrawDialect(c, f/len(c06Cols)+f%len(c06Cols))}) {
 			continue
 		}
 		if f < len(c06Cols) && f%4 == 0 {
@@ -1134,6 +1154,11 @@ func replayC06(c *core.Ctx, raw json.RawMessage) {
 	var lc c06Large
 	if err := json.Unmarshal(raw, &lc); err == nil && lc.PageBuf > 0 && len(lc.Pages) > 0 && c06ColByName(lc.Col) != nil {
 		c06LargeCheck(c, &lc, true)
+		return
+	}
+	var fx c06Foreign
+	if err := json.Unmarshal(raw, &fx); err == nil && fx.Dialect != nil && fx.Col != "" && c06ColByName(fx.Col) != nil {
+		c06ForeignCheck(c, &fx, true)
 		return
 	}
 	var fc c06File
